@@ -182,8 +182,9 @@ def to_text(c):
                 s["tid"], tx_list(tab.key(k) for k in ls.get("keys", [])),
                 tx_list(tx_segs(t) for t in ls.get("tmps", [])),
                 tx_list("(%s %s)" % (tab.key(p["key"]), tx_obs(tab, p["obs"])) for p in s.get("probes", []))))
-        return "(1 %s %s %s %s)" % (tab.text(), tx_list(tx_script(s) for s in c["scripts"]), tx_list(steps),
-                                    tx_list(tx_obs(tab, o) for o in c["results"]))
+        return "(1 %s %s %s %s %d)" % (tab.text(), tx_list(tx_script(s) for s in c["scripts"]), tx_list(steps),
+                                       tx_list(tx_obs(tab, o) for o in c["results"]),
+                                       1 if c.get("kind") == "fs2" else 0)
     if st == "free":
         fin = c.get("final") or {}
         return "(2 %s %s %s %s %d %s)" % (
@@ -360,6 +361,8 @@ def oracle_sched(c):
         for p in s.get("probes", []):
             oracle_read(p["obs"], p["key"], possible, where + " probe", out, strict_absent=False)
     check_ls(c.get("final"), list(ok_keys), "after all calls returned", out)
+    if c.get("strays", "ok") != "ok":
+        out.append(("foreign-file-touched", c["strays"]))
     return out
 
 
@@ -420,7 +423,21 @@ def oracle_cr(c):
             final = code
             break
     got = tbytes[:pos]
+    if c["stream"] == "cr-huge":
+        if codes != [1]:
+            out.append(("genuine-stream-rejected", "%s: code %s" % (c.get("note", ""), codes)))
+        return out
+    if c["stream"] == "cr-contract":
+        # the underlying reader broke the io.Reader contract: anything but a certified end-of-stream is acceptable
+        if 1 in codes:
+            out.append(("end-of-stream-reported-over-a-reader-that-broke-the-contract", c.get("note", "")))
+        return out
     if final == 0:
+        if c.get("note") == "early":
+            # the caller stopped before any verdict: it must not have been told end-of-stream (it was not)
+            if bytes(tbytes) != under[:len(tbytes)]:
+                out.append(("bytes-handed-on-differ-from-the-underlying-stream", "early stop"))
+            return out
         out.append(("stream-never-ended", "no error after %d reads" % len(codes)))
         return out
     if bytes(got) != under:
@@ -446,8 +463,64 @@ def oracle_cr(c):
     return out
 
 
+def oracle_peek(c):
+    out = []
+    for i, (op, o) in enumerate(zip(c["ops"], c["results"])):
+        if o["t"] != "key" or o["key"] != op["key"]:
+            out.append(("create-failed-on-a-good-input", "large content %d: %s %s" % (i, o["t"], o.get("msg", ""))))
+    last = {}
+    for p in c.get("opens", []):
+        o = p["obs"]
+        last[p["key"]] = o
+        if o["t"] == "found":
+            n, _, digest = o.get("msg", "0:").partition(":")
+            if digest != p["key"]:
+                out.append(("open-returned-a-partially-written-object",
+                            "an Open through a second store object (or a direct read) while the key was being "
+                            "committed got %s bytes hashing to %s.., not the object %s.." % (n, digest[:12], p["key"][:12])))
+        elif o["t"] != "notfound":
+            out.append(("open-failed", "%s %s" % (o["t"], o.get("msg", ""))))
+    for op in c["ops"]:
+        if last.get(op["key"], {}).get("t") != "found":
+            out.append(("created-object-not-found", op["key"][:12]))
+    check_ls(c.get("final"), [op["key"] for op in c["ops"]], "at the end", out)
+    return out
+
+
+def oracle_json(c):
+    out = []
+    created = set()
+    for i, (op, o) in enumerate(zip(c["ops"], c["obs"])):
+        where = "op %d (%s, %s store)" % (i, op["op"], c.get("kind"))
+        if op["op"] == "cjson":
+            want = sha(seg_bytes(op.get("b")))
+            if o["t"] != "key" or o["key"] != want:
+                out.append(("createjson-returned-a-key-that-is-not-the-sha256-of-the-marshalled-value", where))
+            else:
+                created.add(want)
+        elif op.get("h") == 1:        # read back what CreateJSON stored
+            if o["t"] != "bool" or not o.get("v"):
+                out.append(("readjson-did-not-give-the-stored-value-back", "%s: %s" % (where, o)))
+        elif op.get("h") == 0:        # absent key
+            if o["t"] != "notfound":
+                out.append(("readjson-of-an-absent-key-did-not-say-not-found", "%s: %s" % (where, o)))
+        elif op.get("h") == 2:        # an object that is not JSON
+            if o["t"] in ("bool", "notfound", "key"):
+                out.append(("readjson-accepted-an-object-that-is-not-json", "%s: %s" % (where, o)))
+        elif op.get("h") == 3:        # the first value is decoded, the rest of the object is ignored
+            if o["t"] != "bool" or not o.get("v"):
+                out.append(("readjson-did-not-decode-the-leading-value", "%s: %s" % (where, o)))
+    if c.get("final") is not None:
+        check_ls(c["final"], None, "at the end", out)
+    return out
+
+
 def impl_oracle(c):
     st = c["stream"]
+    if st == "json":
+        return oracle_json(c)
+    if st == "fs-peek":
+        return oracle_peek(c)
     if st.startswith("fs-"):
         return oracle_fs_hist(c)
     if st.startswith("mem-"):
@@ -488,7 +561,7 @@ def slim(c):
     d = {k: c[k] for k in ("stream", "kind", "n", "want", "hstr", "ctorcode", "note") if k in c}
     if "ops" in c:
         d["ops"] = [{k: o[k] for k in ("op", "key", "fault", "h") if k in o} for o in c["ops"]][:8]
-        d["obs"] = [{k: (v if k != "b" else "...") for k, v in o.items()} for o in c["obs"]][:8]
+        d["obs"] = [{k: (v if k != "b" else "...") for k, v in o.items()} for o in c.get("obs", [])][:8]
     if "results" in c:
         d["results"] = [{k: (v if k != "b" else "...") for k, v in o.items()} for o in c["results"]][:6]
     if c.get("trace"):
@@ -613,7 +686,9 @@ def run(ck):
     model_ok = all(built.get(x) for x in MODEL)
     if cases and model_ok:
         # a shard is one Coq file; its text is cut into literals short enough for Coq's stack
-        texts = [to_text(c) for c in cases]
+        # megabyte contents, contract-breaking readers, encoding/json: oracle only
+        corr_cases = [c for c in cases if c["stream"] not in ("fs-peek", "cr-contract", "cr-huge", "json")]
+        texts = [to_text(c) for c in corr_cases]
         parts = []
         cur, cur_n, cur_start = [], 0, 0
         for idx, t in enumerate(texts):
@@ -641,10 +716,10 @@ def run(ck):
                     ck.broken.append({"what": "correspondence evaluation failed", "shard": s, "detail": out[-1500:]})
                     continue
                 mism += [s + i for i in got]
-        ck.coverage["correspondence_cases"] = len(cases)
+        ck.coverage["correspondence_cases"] = len(corr_cases)
         ck.coverage["correspondence_mismatches"] = len(mism)
         for i in mism[:50]:
-            c = cases[i]
+            c = corr_cases[i]
             ck.broken.append({"what": "correspondence: model and implementation disagree",
                               "stream": c["stream"], "case_index": i})
             if not impl_oracle(c):
